@@ -104,7 +104,11 @@ pub fn parse_request(input: &[u8]) -> Result<RefReq, String> {
         Some(i) => (target[..i].to_vec(), Some(target[i + 1..].to_vec())),
         None => (target.to_vec(), None),
     };
-    let path = String::from_utf8(percent_decode_strict(&raw_path).map_err(|e| format!("non-utf8|path escape: {e}"))?).map_err(|_| "non-utf8|path does not decode to UTF-8")?;
+    let path = String::from_utf8(percent_decode_strict(&raw_path).map_err(|e| format!("escape|path escape: {e}"))?).map_err(|_| "non-utf8|path does not decode to UTF-8")?;
+    if path.contains('\0') {
+        // `%00` in the path: outside the subset (ohkami refuses it with 400, as it refuses a raw NUL)
+        return Err("nul|path decodes to a NUL".into());
+    }
     // headers
     let mut headers: Vec<(String, Vec<String>)> = vec![];
     for l in &lines[1..] {
@@ -138,10 +142,15 @@ pub fn parse_request(input: &[u8]) -> Result<RefReq, String> {
                 return Err("content-length|several Content-Length lines".into());
             }
             let v = &vs[0];
-            if v.is_empty() || v.len() > 10 || !v.bytes().all(|b| b.is_ascii_digit()) {
-                return Err("content-length|Content-Length is not 1-10 decimal digits".into());
+            if v.is_empty() || !v.bytes().all(|b| b.is_ascii_digit()) {
+                return Err("content-length|Content-Length is not a sequence of decimal digits".into());
             }
-            let n: u64 = v.parse().unwrap();
+            // any number of leading zeros denotes the same number (the statement refuses non-numeric and overflowing lengths, not long ones)
+            let sig = v.trim_start_matches('0');
+            if sig.len() > 10 {
+                return Err("content-length|Content-Length beyond the payload limit".into());
+            }
+            let n: u64 = if sig.is_empty() { 0 } else { sig.parse().unwrap() };
             if n >= (1u64 << 32) {
                 return Err("content-length|Content-Length beyond the payload limit".into());
             }
@@ -338,11 +347,11 @@ pub fn gen_request(rng: &mut Rng, allow_body: bool) -> GenReq {
 
 /* ------------------------------ malformed variants ------------------------------ */
 
-pub const MUTATIONS: [&str; 25] = [
+pub const MUTATIONS: [&str; 27] = [
     "truncate-in-body",
     "truncate-in-request-line", "truncate-in-headers", "truncate-before-blank-line", "no-second-space", "bad-version", "short-version", "lf-only", "missing-colon-space", "cl-alpha", "cl-negative",
     "cl-plus", "cl-leading-space", "cl-overflow-20-digits", "cl-4294967296", "cl-duplicate-differing", "non-utf8-path", "non-utf8-header-value", "nul-in-request-line", "nul-in-header",
-    "unknown-method", "lowercase-method", "garbage", "transfer-encoding-chunked", "empty-header-name",
+    "unknown-method", "lowercase-method", "garbage", "transfer-encoding-chunked", "empty-header-name", "ctl-in-target", "bare-line-break-in-header-value",
 ];
 
 /// a malformed variant of `r`; returns (bytes, everything announced was delivered)
@@ -436,6 +445,22 @@ pub fn mutate(rng: &mut Rng, r: &GenReq, kind: &str) -> Vec<u8> {
             let i = rng.range(0, line_end - 1);
             v[i] = 0;
             v
+        }
+        "ctl-in-target" => {
+            // a control character (a line break, most interestingly) inside path or query; the request line then ends early
+            let sp = valid.iter().position(|&b| b == b' ').unwrap_or(0);
+            let mut v = valid.clone();
+            let at = sp + 2 + rng.below((line_end.saturating_sub(sp + 12)).max(1));
+            let ins: &[u8] = *rng.pick(&[&b"\r\n"[..], b"\n", b"\r", b"\t", b"\x7f", b"\x01", b"\r\nX-Injected: 1\r\n"]);
+            let at = at.min(v.len());
+            v.splice(at..at, ins.iter().copied());
+            v
+        }
+        "bare-line-break-in-header-value" => {
+            let mut out = valid[..head_len - 2].to_vec();
+            out.extend_from_slice(*rng.pick(&[&b"X-Br: a\nb\r\n\r\n"[..], b"X-Br: a\rb\r\n\r\n", b"X-Br: a\nX-Injected: 1\r\n\r\n"]));
+            out.extend_from_slice(&valid[head_len..]);
+            out
         }
         "nul-in-header" => {
             let mut out = valid[..head_len - 2].to_vec();
